@@ -202,7 +202,7 @@ def run(tier, seed):
         cases.append({"id": nid, "files": {"top.sv": items}, "top": "top.sv", "fn": "preprocess"})
         by_id[str(nid)] = {"seeded": i}
     vlib.log("C05: %d cases (%d exported by TLC, %d seeded)" % (len(cases), len(ex), nrand))
-    records, hcases, results = ppcheck.build_run_records(cases, "c05")
+    records, hcases, results = ppcheck.build_run_records(cases, "c05", check_origins=False)
     for c, h in zip(cases, hcases):
         by_id[str(c["id"])]["source"] = h["files"]["top.sv"]
     v.cov["evaluations"] = len(cases)
